@@ -240,6 +240,7 @@ def write_replay(prop: str, bucket: str, case: dict, detail: str) -> str:
 def check(prop: str, tier: str) -> int:
     t0 = time.time()
     seed = int(os.environ.get("VERIF_SEED", "1") or "1")
+    os.environ["PESTVERIF_TIER"] = tier if tier in ("quick", "thorough") else "quick"
     mod = importlib.import_module(f"pestverif.props.{prop.lower()}")
     lines: list[str] = []
     nviol = 0
